@@ -161,10 +161,15 @@ func (p *parser) ParseFile() (prog *ast.File, err error) {
 			return
 		}
 		if r := recover(); r != nil {
-			if errx, ok := r.(*parserError); ok {
+			switch errx := r.(type) {
+			case *parserError:
 				prog = p.prog
 				err = errx
-			} else {
+			case assertError:
+				// 输入不合法导致的断言失败
+				prog = p.prog
+				err = &parserError{p.fset.Position(p.pos), string(errx)}
+			default:
 				panic(r)
 			}
 		}
